@@ -15,7 +15,8 @@ import errno as _errno
 import io
 import os
 
-ERRNOS = {"ENOSPC": _errno.ENOSPC, "EIO": _errno.EIO, "EDQUOT": _errno.EDQUOT}
+ERRNOS = {"ENOSPC": _errno.ENOSPC, "EIO": _errno.EIO, "EDQUOT": _errno.EDQUOT, "EPIPE": _errno.EPIPE,
+          "EFBIG": _errno.EFBIG, "ENXIO": _errno.ENXIO, "EROFS": _errno.EROFS}
 
 
 class SimCrash(BaseException):
@@ -215,10 +216,50 @@ class SimLiveness(BaseException):
     """Raised by the seam when a reader keeps pulling at EOF (deterministic hang detection)."""
 
 
+class _PathDict(dict):
+    """dict keyed by simulated paths; every key goes through the disk's path resolution."""
+
+    def __init__(self, disk):
+        super().__init__()
+        self._disk = disk
+
+    def _k(self, key):
+        return self._disk.resolve(key)
+
+    def __getitem__(self, key):
+        return super().__getitem__(self._k(key))
+
+    def __setitem__(self, key, value):
+        super().__setitem__(self._k(key), value)
+
+    def __delitem__(self, key):
+        super().__delitem__(self._k(key))
+
+    def __contains__(self, key):
+        try:
+            return super().__contains__(self._k(key))
+        except TypeError:
+            return False
+
+    def get(self, key, default=None):
+        return super().get(self._k(key), default)
+
+    def pop(self, key, *a):
+        return super().pop(self._k(key), *a)
+
+    def setdefault(self, key, default=None):
+        return super().setdefault(self._k(key), default)
+
+
 class SimDisk:
     def __init__(self, buffer_size=8192, chunk_size=None, encoding="utf-8", log_events=True):
-        self.files = {}  # path -> bytearray
-        self.plans = {}  # path -> WritePlan
+        # Paths are resolved the way the operating system does it: relative to the working directory, "." and
+        # ".." component by component, symbolic links to directories followed (so "link/.." is the parent of the
+        # link's target, not of the link).
+        self.cwd = os.getcwd()
+        self.symlinks = {}  # absolute path of the link -> absolute target directory
+        self.files = _PathDict(self)  # path -> bytearray
+        self.plans = _PathDict(self)  # path -> WritePlan
         self.events = []
         self.handles = []  # every handle ever opened (raw writers and text readers)
         self.seq = 0
@@ -231,12 +272,36 @@ class SimDisk:
         self.sched = None  # optional baton scheduler (threaded runs)
         self.real_opens = []  # attempted opens of paths that are not simulated
 
+    def resolve(self, path):
+        p = os.fspath(path)
+        if isinstance(p, bytes):
+            p = os.fsdecode(p)
+        if not p.startswith("/"):
+            p = self.cwd.rstrip("/") + "/" + p
+        cur = []
+        for comp in p.split("/"):
+            if comp in ("", "."):
+                continue
+            if comp == "..":
+                if cur:
+                    cur.pop()
+                continue
+            cur.append(comp)
+            target = self.symlinks.get("/" + "/".join(cur))
+            if target is not None:
+                cur = [c for c in target.split("/") if c]
+        return "/" + "/".join(cur)
+
+    def symlink(self, link, target_dir):
+        """Register `link` as a symbolic link to the directory `target_dir` (both resolved first)."""
+        self.symlinks[self.resolve(link)] = self.resolve(target_dir)
+
     # -- logging ---------------------------------------------------------------------------
     def log(self, kind, path, **detail):
         self.seq += 1
         if self.log_events:
             detail["e"] = kind
-            detail["p"] = path
+            detail["p"] = self.resolve(path)
             detail["s"] = self.seq
             self.events.append(detail)
 
@@ -253,6 +318,7 @@ class SimDisk:
         return None if data is None else bytes(data)
 
     def events_for(self, path, kinds=None):
+        path = self.resolve(path)
         return [e for e in self.events if e["p"] == path and (kinds is None or e["e"] in kinds)]
 
     def open_handles(self):
@@ -347,8 +413,9 @@ class Installed:
                 p = os.fsdecode(p)
             if p in disk.files:
                 return p
-            # relative paths that do not exist for real belong to the simulation as well
-            if not os.path.isabs(p) and not real["exists"](p):
+            # paths that do not exist for real belong to the simulation as well (relative ones, and absolute
+            # ones below the working directory, e.g. the result of os.path.abspath on a simulated name)
+            if not real["exists"](p) and (not os.path.isabs(p) or p.startswith(disk.cwd.rstrip("/") + "/")):
                 return p
             return None
 
